@@ -31,6 +31,7 @@ class Flow:
         self.breaks = {}        # loop id -> [state]
         self.conts = {}
         self.visit_hook = None  # optional callable(node, state_before)
+        self.exit_hook = None   # optional callable(node, state_before, state_after) for if/match/loops
 
     # ------------------------------------------------------------------ helpers
     def j(self, a, b):
@@ -45,6 +46,11 @@ class Flow:
         for x in xs:
             out = self.j(out, x)
         return out
+
+    def _exit(self, n, before, after):
+        if after is not None and self.exit_hook is not None:
+            return self.exit_hook(n, before, after)
+        return after
 
     def diverges(self, n):
         return self.facts.ty(n) == "!"
@@ -170,7 +176,7 @@ class Flow:
             st_e = self.guard(n, c, False, "if")
         t = self.ev(n["th"], st_t)
         e = self.ev(n["el"], st_e) if n.get("el") else st_e
-        return self.j(t, e)
+        return self._exit(n, c, self.j(t, e))
 
     def ev_Match(self, n, st):
         s = self.ev(n["e"], st)
@@ -185,7 +191,7 @@ class Flow:
             if arm.get("guard"):
                 a = self.ev(arm["guard"], a)
             outs.append(self.ev(arm["body"], a))
-        return self.jall(outs)
+        return self._exit(n, s, self.jall(outs))
 
     def _loop(self, n, st, cond, body, has_cond):
         lid = n.get("loop_id", n.get("id"))
@@ -218,7 +224,7 @@ class Flow:
                 break
             head = new_head
         outs = exit_states + [s for i in ids for s in self.breaks[i]]
-        return self.jall(outs)
+        return self._exit(n, entry, self.jall(outs))
 
     def ev_While(self, n, st):
         return self._loop(n, st, n["c"], n["body"], True)
@@ -249,7 +255,7 @@ class Flow:
             head = new_head
         outs = [s for i in ids for s in self.breaks[i]]
         base = back if self.once else head
-        return self.jall([base] + outs)
+        return self._exit(n, entry, self.jall([base] + outs))
 
     def ev_Break(self, n, st):
         if n.get("e"):
